@@ -85,6 +85,9 @@ def xtype_chain(fi):
                 if not (isinstance(t, ast.Compare) and ntext(t.left) == 'self.xtype'):
                     raise AnalysisError('%s: mixed tests in the xtype chain' % fi.fq)
                 c = const_str(t.comparators[0])
+                if c is None and isinstance(t.ops[0], ast.In) and isinstance(t.comparators[0], (ast.Tuple, ast.List, ast.Set)) \
+                        and all(const_str(e) is not None for e in t.comparators[0].elts):
+                    c = [const_str(e) for e in t.comparators[0].elts]       # in ('N', 'G')
                 if c is None:
                     raise AnalysisError('%s: non-literal xtype test' % fi.fq)
                 letters = list(c) if isinstance(t.ops[0], ast.In) else [c]
